@@ -12,6 +12,7 @@ mod c09;
 mod c09e;
 mod alloc;
 mod x01;
+mod x02;
 mod c08t;
 mod c11;
 mod c11e;
@@ -70,6 +71,7 @@ fn main() {
         ("c09", "e2e") => c09e::cmd_e2e(rest),
         ("c08", "tablets") => c08t::cmd_tablets(rest),
         ("x01", "run") => x01::cmd_run(rest),
+        ("x02", "run") => x02::cmd_run(rest),
         ("c11", "run") => c11::cmd_run(rest),
         ("c11", "e2e") => c11e::cmd_e2e(rest),
         ("c12", "run") => c12::cmd_run(rest),
